@@ -278,7 +278,7 @@ Proof.
   { intros b _. reflexivity. }
   exists (h :: concat bl ++ tl). split.
   - unfold write_L. rewrite Wh. cbn [bind]. rewrite Wbl. cbn [bind]. rewrite Wt. reflexivity.
-  - unfold read_L. cbn [readline].
+  - unfold read_L, read_used_L. cbn [readline].
     assert (Lf : exists fuel, S (length (concat bl ++ tl)) = length (blocks i) + S fuel).
     { exists (length (concat bl ++ tl) - length (blocks i)). rewrite app_length in *. lia. }
     destruct Lf as [fuel Lf]. rewrite Lf.
